@@ -195,7 +195,7 @@ func TestVerifC03(t *testing.T) { //nolint:cyclop,gocognit,maintidx
 	var cases []c03Case
 	states := []SignalingState{SignalingStateStable, SignalingStateHaveLocalOffer, SignalingStateHaveRemoteOffer, SignalingStateHaveLocalPranswer, SignalingStateHaveRemotePranswer}
 	edges := jsepEdges()
-	reps := kit.N(1, 12)
+	reps := kit.N(1, 8)
 	sems := []SDPSemantics{SDPSemanticsUnifiedPlan, SDPSemanticsUnifiedPlanWithFallback, SDPSemanticsPlanB}
 	for rep := 0; rep < 7*reps; rep++ {
 		// the first `reps` blocks are the default environment, then per rep two varied blocks for each SDPSemantics value
